@@ -292,6 +292,75 @@ pub fn exec_t<T: LabelType + 'static>(prop: &str, case: &DynCase, mk: &dyn Fn(L)
     (hub, chub)
 }
 
+/// Outcome of a history replayed with a backend fault at one global SAT-call position (C17).
+pub struct FaultRun {
+    pub calls: u64,
+    pub fired: bool,
+    /// 1-based step during which the fault fired, whether it was a query, whether it unwound, and
+    /// what it returned otherwise
+    pub at_step: Option<(usize, bool, bool, String)>,
+    pub harness_error: Option<String>,
+}
+
+/// Replays the VALID part of a history with `fault` armed; stops at the step during which it fires.
+pub fn exec_with_fault<T: LabelType + 'static>(case: &DynCase, mk: &dyn Fn(L) -> T, fault: &Option<crate::statics::Fault>) -> FaultRun {
+    let (hub, chub) = make_hubs(case.oracle, case.backend, fault);
+    hub.borrow_mut().call_budget = 20_000;
+    let mut solver: Box<dyn DynObj<T>> = make_solver(case.solver, FACTORS[case.factor % FACTORS.len()], case.backend, &hub, &chub);
+    let mut store = RefStore::default();
+    let mut out = FaultRun { calls: 0, fired: false, at_step: None, harness_error: None };
+    for (k, st) in case.steps.iter().enumerate() {
+        let (is_query, res): (bool, Result<String, String>) = match st {
+            Step::U(u) => {
+                if store.classify(u) != Applied::Changed {
+                    continue;
+                }
+                store.apply(u);
+                let r = catch_unwind(AssertUnwindSafe(|| match u {
+                    Upd::AddArg(l) => {
+                        solver.new_argument(mk(*l));
+                        "Ok".to_string()
+                    }
+                    Upd::DelArg(l) => format!("{:?}", solver.remove_argument(&mk(*l)).map_err(|e| e.to_string())),
+                    Upd::AddAtt(a, b) => format!("{:?}", solver.new_attack(&mk(*a), &mk(*b)).map_err(|e| e.to_string())),
+                    Upd::DelAtt(a, b) => format!("{:?}", solver.remove_attack(&mk(*a), &mk(*b)).map_err(|e| e.to_string())),
+                }));
+                (false, r.map_err(|p| panic_text(p.as_ref())))
+            }
+            Step::Q { kind, arg, cert } => {
+                if !store.live.contains_key(arg) || !case.solver.supports(*kind) {
+                    continue;
+                }
+                let t = mk(*arg);
+                let r = catch_unwind(AssertUnwindSafe(|| {
+                    let (b, c) = match (kind, cert) {
+                        (QKind::DC, true) => solver.is_credulously_accepted_with_certificate(&t),
+                        (QKind::DC, false) => (solver.is_credulously_accepted(&t), None),
+                        (QKind::DS, true) => solver.is_skeptically_accepted_with_certificate(&t),
+                        (_, _) => (solver.is_skeptically_accepted(&t), None),
+                    };
+                    format!("{:?}-{} [{}]{} answered {}{}", kind, case.solver.sem().name(), arg, if *cert { " +cert" } else { "" }, if b { "YES" } else { "NO" }, c.map(|c| format!(" with a certificate of {} arguments", c.len())).unwrap_or_default())
+                }));
+                (true, r.map_err(|p| panic_text(p.as_ref())))
+            }
+        };
+        if hub.borrow().fault_fired {
+            out.fired = true;
+            out.at_step = Some((k + 1, is_query, res.is_err(), res.unwrap_or_else(|e| e)));
+            break;
+        }
+        if res.is_err() {
+            break; // an abort without a fault is C08's business
+        }
+    }
+    let h = hub.borrow();
+    out.calls = h.calls;
+    out.harness_error = h.harness_error.clone();
+    drop(h);
+    drop(solver);
+    out
+}
+
 fn upd_name(u: &Upd) -> &'static str {
     match u {
         Upd::AddArg(_) => "new_argument",
